@@ -112,9 +112,13 @@ pub fn update_position_reply(
                     - Integer::new_positive(swap.open_notional)
             };
 
+            // an open notional cannot be negative: the part below zero is PnL that is realized now
+            let (realized_pnl, remaining_notional) =
+                realize_negative_notional(&position, realized_pnl, remaining_notional);
+
             margin_delta = realized_pnl;
             new_direction = position.direction.clone();
-            new_notional = remaining_notional.value;
+            new_notional = remaining_notional;
         }
     }
 
@@ -225,6 +229,28 @@ pub fn update_position_reply(
         ("spread_fee", &fees_amount[0].to_string()),
         ("toll_fee", &fees_amount[1].to_string()),
     ]))
+}
+
+// The pro-rata split of a reduction can leave a remaining open notional below zero (the trade fetched more, or
+// cost more, than the closed share of the position's value plus the whole remaining cost basis). Storing its
+// magnitude would flip its sign and misstate the PnL of the later close by twice that amount; instead the part
+// below zero is realized with this trade (a profit for a long, a loss for a short) and the open notional is zero.
+fn realize_negative_notional(
+    position: &Position,
+    realized_pnl: Integer,
+    remaining_notional: Integer,
+) -> (Integer, Uint128) {
+    if remaining_notional.is_negative() {
+        let excess = Integer::new_positive(remaining_notional.value);
+        let realized_pnl = if position.size > Integer::zero() {
+            realized_pnl + excess
+        } else {
+            realized_pnl - excess
+        };
+        (realized_pnl, Uint128::zero())
+    } else {
+        (realized_pnl, remaining_notional.value)
+    }
 }
 
 // reverse position after successful execution of the swap
@@ -478,13 +504,6 @@ pub fn partial_close_position_reply(
         Integer::zero()
     };
 
-    let RemainMarginResponse {
-        funding_payment,
-        margin,
-        bad_debt,
-        latest_premium_fraction,
-    } = calc_remain_margin_with_funding_payment(deps.as_ref(), position.clone(), realized_pnl)?;
-
     let unrealized_pnl_after = swap.unrealized_pnl - realized_pnl;
 
     let remaining_notional = if position.size > Integer::zero() {
@@ -496,13 +515,24 @@ pub fn partial_close_position_reply(
             - Integer::new_positive(swap.open_notional)
     };
 
+    // an open notional cannot be negative: the part below zero is PnL that is realized now
+    let (realized_pnl, remaining_notional) =
+        realize_negative_notional(&position, realized_pnl, remaining_notional);
+
+    let RemainMarginResponse {
+        funding_payment,
+        margin,
+        bad_debt,
+        latest_premium_fraction,
+    } = calc_remain_margin_with_funding_payment(deps.as_ref(), position.clone(), realized_pnl)?;
+
     // calculate the fees
     let fees = transfer_fees(deps.as_ref(), swap.trader, swap.vamm, swap.open_notional).unwrap();
 
     // set the new position
     position.size += signed_output;
     position.margin = margin;
-    position.notional = remaining_notional.value;
+    position.notional = remaining_notional;
     position.last_updated_premium_fraction = latest_premium_fraction;
     position.block_number = env.block.height;
 
